@@ -291,6 +291,8 @@ def _same_len(a, b):
 
 # ---------------------------------------------------------------- getitem
 def getitem(eng, base, idx):
+    if isinstance(base, PList) and hasattr(base, "__pyvc_getitem__"):
+        return base.__pyvc_getitem__(eng, idx)  # list subclasses of extension modules index themselves
     if isinstance(base, PList):
         if base.items is not None:
             if isinstance(idx, slice):
